@@ -41,6 +41,8 @@ int g_num_ovf;
 uintmax_t g_num_mag;
 size_t g_num_end;
 int g_num_base;
+int g_num_reqbase;
+const char * g_num_sptr;
 double g_num_fval;
 int g_num_frange;
 size_t g_num_slen;
@@ -197,6 +199,8 @@ strtoumax(const char * nptr, char ** endptr, int base)
 	__CPROVER_precondition(nptr != NULL, "strtoumax: nptr != NULL");
 	__CPROVER_precondition(base == 0 || (base >= 2 && base <= 36), "strtoumax: base is 0 or 2..36");
 	g_num_calls++;
+	g_num_reqbase = base;
+	g_num_sptr = nptr;
 	num_scan(nptr, base);
 	if (endptr != NULL)
 		*endptr = (char *)(uintptr_t)(nptr + g_num_end);
@@ -222,6 +226,8 @@ strtoimax(const char * nptr, char ** endptr, int base)
 	__CPROVER_precondition(nptr != NULL, "strtoimax: nptr != NULL");
 	__CPROVER_precondition(base == 0 || (base >= 2 && base <= 36), "strtoimax: base is 0 or 2..36");
 	g_num_calls++;
+	g_num_reqbase = base;
+	g_num_sptr = nptr;
 	num_scan(nptr, base);
 	if (endptr != NULL)
 		*endptr = (char *)(uintptr_t)(nptr + g_num_end);
@@ -255,6 +261,8 @@ strtod(const char * nptr, char ** endptr)
 
 	__CPROVER_precondition(nptr != NULL, "strtod: nptr != NULL");
 	g_num_calls++;
+	g_num_reqbase = 0;
+	g_num_sptr = nptr;
 	len = strlen(nptr);		/* the input must be a string */
 	k = nondet_size_t();
 	__CPROVER_assume(k <= len);
